@@ -206,6 +206,22 @@ QueryOK(e) ==
     [] e.ev = "semhash" -> Req("C11", HashOK(e))
     [] e.ev \in {"mmap", "meu", "bb"} -> Req("C12", OptOK(e))
     [] e.ev \in {"topvar", "mc", "wmcr", "wmcc", "wmcp", "json", "cnt", "sddpipe", "tdpipe", "cmisc"} -> TRUE     \* C ABI queries: judged by the twin only
+    [] e.ev = "bfold" -> TRUE                                                        \* purity (C10) through FreshAgrees / dirty; the value: BFoldDrift
+
+(* bdd_fold (beyond the listed properties; a difference is reported as drift, never as a violation): the fold of the Shannon
+   expansion of the function along the builder's order - value(True) = hi, value(False) = lo, otherwise
+   F(v, value(f|v=0), value(f|v=1)) for the first variable v of the order that f depends on *)
+RECURSIVE BFoldFrom(_, _, _, _)
+BFoldFrom(f, ordseq, lvl, which) ==
+  IF f = {} THEN (IF which = 0 THEN 0 ELSE 1)
+  ELSE IF f = Assign THEN (IF which = 0 THEN 1 ELSE 2)
+  ELSE LET i == CHOOSE i \in lvl .. Len(ordseq) :
+                   DependsOn(f, ordseq[i]) /\ \A j \in lvl .. (i - 1) : ~DependsOn(f, ordseq[j])
+           v == ordseq[i]
+           lo == BFoldFrom(Cond(f, v, FALSE), ordseq, i + 1, which)
+           hi == BFoldFrom(Cond(f, v, TRUE), ordseq, i + 1, which)
+       IN IF which = 0 THEN lo + hi ELSE lo + 2 * hi + v + 1
+BFoldDrift(e) == e.ev = "bfold" /\ "val" \in DOMAIN e /\ e.val # BFoldFrom(D(e, 1), ord, 1, e.a[2])
 
 (* a numeric answer that is not exactly representable where the property demands an exact value *)
 PropOfQuery(e) == CASE e.ev = "uwmc" /\ loose[e.a[1]] >= 0 -> "C08"
@@ -224,6 +240,7 @@ Query(e) ==
                        /\ (IF "root" \in DOMAIN e THEN "troot" \in DOMAIN e /\ e.troot = e.root /\ e.tnodes = e.nodes ELSE TRUE))
        ELSE TRUE
   /\ Req("C10", e.dirty = << >>)
+  /\ (IF BFoldDrift(e) THEN PrintT(<<"DRIFT", e.val>>) ELSE TRUE)
   /\ hashes' = (IF e.ev = "semhash" THEN HashUpd(e) ELSE hashes)
   /\ UNCHANGED <<nvars, ord, node, root, den, loose, canon, contents>>
 =============================================================================
